@@ -96,6 +96,22 @@ def _(self, t, fn):
     return self(t.__args__, fn)
 
 
+class _PerClassCheck:
+    """isinstance(value, typ), remembered for each class of value."""
+
+    def __init__(self, typ):
+        self.typ = typ
+        self.known = {}
+
+    def __call__(self, value):
+        cls = type(value)
+        try:
+            return self.known[cls]
+        except KeyError:
+            rval = self.known[cls] = isinstance(value, self.typ)
+            return rval
+
+
 class MetaMC(type):
     def __new__(T, name, handler):
         return super().__new__(T, name, (), {"_handler": handler})
@@ -109,7 +125,9 @@ class MetaMC(type):
         else:
             from .dependent import CodeGen
 
-            return CodeGen("isinstance({arg}, {this})", this=cls)
+            # The condition is on the class of the value: it is evaluated
+            # once per class, like everywhere else in the resolution
+            return CodeGen("{this}({arg})", this=_PerClassCheck(cls))
 
     def __type_order__(cls, other):
         return cls._handler.__type_order__(other)
